@@ -131,14 +131,14 @@ func prec(e *Expr) int {
 
 // ------------------------------------------------------------- constructors
 
-func Lit(l *Literal) *Expr             { return &Expr{Kind: ELit, Lit: l} }
-func Id(name string) *Expr             { return &Expr{Kind: EIdent, Name: name} }
-func Un(op string, x *Expr) *Expr      { return &Expr{Kind: EUnary, Op: op, L: x} }
-func Bin(op string, l, r *Expr) *Expr  { return &Expr{Kind: EBinary, Op: op, L: l, R: r} }
-func And(l, r *Expr) *Expr             { return &Expr{Kind: EAnd, L: l, R: r} }
-func Or(l, r *Expr) *Expr              { return &Expr{Kind: EOr, L: l, R: r} }
+func Lit(l *Literal) *Expr              { return &Expr{Kind: ELit, Lit: l} }
+func Id(name string) *Expr              { return &Expr{Kind: EIdent, Name: name} }
+func Un(op string, x *Expr) *Expr       { return &Expr{Kind: EUnary, Op: op, L: x} }
+func Bin(op string, l, r *Expr) *Expr   { return &Expr{Kind: EBinary, Op: op, L: l, R: r} }
+func And(l, r *Expr) *Expr              { return &Expr{Kind: EAnd, L: l, R: r} }
+func Or(l, r *Expr) *Expr               { return &Expr{Kind: EOr, L: l, R: r} }
 func Assign(name string, r *Expr) *Expr { return &Expr{Kind: EAssign, Name: name, R: r} }
-func Paren(x *Expr) *Expr              { return &Expr{Kind: EParen, L: x} }
+func Paren(x *Expr) *Expr               { return &Expr{Kind: EParen, L: x} }
 
 func IntLit(v int) *Literal    { return &Literal{Kind: LInt, Text: fmt.Sprint(v), Val: v} }
 func StrLit(s string) *Literal { return &Literal{Kind: LStr, Text: QuoteSimple(s), Val: s} }
